@@ -122,8 +122,8 @@ CLAIMS = {
         technique="record-field liveness / source-distinctness def-use analysis, generic-argument agreement, flag evaluation, lost-slot-write move analysis",
         text="Faithfulness clauses: every parsed record field / builder parameter is consumed and filled from a distinct parsed position; demand, capacity "
              "and capacity feature share one load type; essential features contain capacity and transport with time windows enforced for Solomon/Li&Lim; "
-             "the rounding flag selects exactly between rounded and raw Euclidean distance; written Dimensions are never dropped. Not decided: numeric "
-             "equality of parsed values, Li&Lim pairing, initial-solution round trip.",
+             "the rounding flag selects exactly between rounded and raw Euclidean distance; written Dimensions are never dropped; Li&Lim pickups/deliveries are paired by the relation column; the initial-solution reader "
+             "visits every route token and every job (no dropping adapter). Not decided: numeric equality of parsed values, place / window choice on re-reading.",
         note="One genuine defect repaired (Li&Lim dimensions dropped, fix: 9670129).",
         ref="DESIGN.md §5 C13"),
     "C14": dict(
